@@ -193,3 +193,118 @@ Proof.
   replace ((((0 * 10 + ms / 100) * 10 + ms / 10 mod 10) * 10 + ms mod 10)) with ms by lia.
   unfold Qeq, Qplus, Qmult, inject_Z. cbn [Qnum Qden]. lia.
 Qed.
+
+(* ---- clock time with frames (integer frame rates: SmpteTimeCode in non-drop mode) -------------------------------------------- *)
+Lemma label_of_fields fps k : 0 < fps -> 0 <= k ->
+  let '(h, m, s, f) := label_of fps k in
+  0 <= h /\ 0 <= m < 60 /\ 0 <= s < 60 /\ 0 <= f < fps /\ ((h * 60 + m) * 60 + s) * fps + f = k.
+Proof.
+  intros Hf Hk. unfold label_of.
+  replace (k / (60 * 60 * fps)) with (k / fps / 3600) by (rewrite Z.div_div by lia; f_equal; lia).
+  replace (k / (60 * fps)) with (k / fps / 60) by (rewrite Z.div_div by lia; f_equal; lia).
+  pose proof (Z.div_mod k fps ltac:(lia)) as E. pose proof (Z.mod_pos_bound k fps Hf) as B.
+  assert (Hq : 0 <= k / fps) by (apply Z.div_pos; lia).
+  set (q1 := k / fps) in *. set (f := k mod fps) in *. clearbody q1 f.
+  assert (Hsum : (q1 / 3600 * 60 + q1 / 60 mod 60) * 60 + q1 mod 60 = q1) by lia.
+  rewrite Hsum. repeat split; lia.
+Qed.
+
+Lemma two_digit_chrs n : 0 <= n < 100 -> pad2 n = chrs [n / 10; n mod 10] /\ all_dec [n / 10; n mod 10] = true /\ nat_of [n / 10; n mod 10] = n.
+Proof.
+  intro H. rewrite pad2_two by lia. split; [reflexivity|]. split.
+  - unfold all_dec, is_dec. cbn [forallb]. lia.
+  - unfold nat_of. cbn [fold_left]. lia.
+Qed.
+
+(* an integer frame rate F, 2 <= F <= 99 (the frames field has two digits): t >= 0 below 100 h is written hh:mm:ss:ff and read back,
+   under the same frame rate, as floor(t * F) / F *)
+Theorem time_clock_frames t F tr :
+  2 <= F <= 99 -> (0 <= t)%Q -> (t < 360000 # 1)%Q ->
+  let k := (Qnum t * F) / (Zpos (Qden t) * 1) in
+  exists s, to_time_format SyClockFrames (Some (inject_Z F)) t = Some s /\
+            exists q, parse_time_x tr (Some (inject_Z F)) s = TVal q /\ (q == inject_Z k / inject_Z F)%Q.
+Proof.
+  intros HF Ht Hlt. cbv zeta.
+  assert (Hn : Qnum t <? 0 = false). { unfold Qle in Ht. simpl in Ht. lia. }
+  assert (Hn0 : 0 <= Qnum t). { unfold Qle in Ht. simpl in Ht. lia. }
+  set (D := Zpos (Qden t)) in *.
+  assert (HD : 0 < D) by (unfold D; lia).
+  set (k := Qnum t * F / (D * 1)).
+  assert (Hk0 : 0 <= k). { unfold k. apply Z.div_pos; nia. }
+  assert (Hklt : k < 360000 * F).
+  { unfold k. apply Z.div_lt_upper_bound; [lia|]. unfold Qlt in Hlt. cbn [Qnum Qden] in Hlt. fold D in Hlt. nia. }
+  unfold to_time_format. rewrite Hn. cbn [Qnum Qden inject_Z].
+  set (r := mkRate F 1).
+  assert (Hfs : from_seconds r (Qnum t) D = label_of F k).
+  { unfold from_seconds, from_frames, adjust, is_df, ndf, r. cbn [rn rd]. replace (1 =? 1001) with false by reflexivity.
+    unfold ceil_div. replace (- (- F / 1)) with F by (rewrite Z.div_1_r; lia). reflexivity. }
+  fold D. rewrite Hfs.
+  pose proof (label_of_fields F k ltac:(lia) Hk0) as Hl. destruct (label_of F k) as [[[h m] s] f].
+  destruct Hl as [Hh [Hm [Hs [Hf Hsum]]]].
+  assert (Hh' : h < 100) by nia.
+  eexists. split; [reflexivity|].
+  unfold print_tc, is_df, r. cbn [rd]. replace (1 =? 1001) with false by reflexivity.
+  destruct (two_digit_chrs h ltac:(lia)) as [Ph [Dh Nh]]. destruct (two_digit_chrs m ltac:(lia)) as [Pm [Dm Nm]].
+  destruct (two_digit_chrs s ltac:(lia)) as [Ps [Ds Ns]]. destruct (two_digit_chrs f ltac:(lia)) as [Pf [Df Nf]].
+  rewrite Ph, Pm, Ps, Pf.
+  change (chrs [h / 10; h mod 10] ++ [colon] ++ chrs [m / 10; m mod 10] ++ [colon] ++ chrs [s / 10; s mod 10] ++ [colon] ++ chrs [f / 10; f mod 10])
+    with (print_time (TClockFrames [h / 10; h mod 10] (m / 10) (m mod 10) (s / 10) (s mod 10) [f / 10; f mod 10])).
+  assert (Hwf : wf_texpr (TClockFrames [h / 10; h mod 10] (m / 10) (m mod 10) (s / 10) (s mod 10) [f / 10; f mod 10]) = true).
+  { unfold wf_texpr, all_dec, is_dec. cbn [forallb length]. lia. }
+  (* the recognisers on a printed member of the grammar *)
+  unfold print_time. cbn [app].
+  rewrite (offsets_none_on_clock [h / 10; h mod 10]) by (try reflexivity; assumption).
+  change (chrs [h / 10; h mod 10] ++ 58 :: chr (m / 10) :: chr (m mod 10) :: 58 :: chr (s / 10) :: chr (s mod 10) :: 58 :: chrs [f / 10; f mod 10])
+    with (chrs [h / 10; h mod 10] ++ [58; chr (m / 10); chr (m mod 10); 58; chr (s / 10); chr (s mod 10); 58] ++ chrs [f / 10; f mod 10]).
+  assert (Dm1 : is_dec (m / 10) = true /\ is_dec (m mod 10) = true /\ is_dec (s / 10) = true /\ is_dec (s mod 10) = true).
+  { unfold is_dec. lia. }
+  destruct Dm1 as [A1 [A2 [A3 A4]]].
+  rewrite clock_frames_fraction_none, clock_frames_print by (try assumption; reflexivity).
+  rewrite Nh, Nm, Ns, Nf.
+  assert (Hle : Qle_bool (inject_Z F) (inject_Z f) = false).
+  { destruct (Qle_bool (inject_Z F) (inject_Z f)) eqn:E; [|reflexivity]. apply Qle_bool_iff in E. unfold Qle, inject_Z in E. simpl in E. lia. }
+  rewrite Hle. eexists. split; [reflexivity|].
+  assert (HFq : ~ (inject_Z F == 0)%Q). { unfold Qeq, inject_Z. simpl. lia. }
+  assert (Hkq : (inject_Z k == (inject_Z h * inject_Z 3600 + inject_Z m * inject_Z 60 + inject_Z s) * inject_Z F + inject_Z f)%Q).
+  { rewrite <- Hsum. repeat (rewrite inject_Z_plus || rewrite inject_Z_mult). change (inject_Z 3600) with (inject_Z 60 * inject_Z 60)%Q. ring. }
+  rewrite Hkq. field. exact HFq.
+Qed.
+
+Lemma floor_q (p : Q) : let k := Qnum p / Zpos (Qden p) in (inject_Z k <= p)%Q /\ (p < inject_Z k + 1)%Q.
+Proof.
+  destruct p as [n d]. cbv zeta. cbn [Qnum Qden].
+  pose proof (Z.div_mod n (Zpos d) ltac:(lia)) as E. pose proof (Z.mod_pos_bound n (Zpos d) ltac:(lia)) as B.
+  set (k := n / Zpos d) in *. set (r := n mod Zpos d) in *. clearbody k r.
+  unfold Qle, Qlt, Qplus, inject_Z. cbn [Qnum Qden]. split; lia.
+Qed.
+
+(* the value read back is never later than t and earlier by less than one frame *)
+Theorem clock_frames_error t F : 0 < F ->
+  let k := (Qnum t * F) / (Zpos (Qden t) * 1) in
+  let q := (inject_Z k / inject_Z F)%Q in (q <= t)%Q /\ (t - q < 1 / inject_Z F)%Q.
+Proof.
+  intro HF. cbv zeta.
+  destruct (floor_q (t * inject_Z F)%Q) as [H1 H2]. cbv zeta in H1, H2.
+  change (Qnum (t * inject_Z F)%Q) with (Qnum t * F) in H1, H2.
+  change (Zpos (Qden (t * inject_Z F)%Q)) with (Zpos (Qden t * 1)) in H1, H2.
+  rewrite Pos2Z.inj_mul in H1, H2.
+  set (c := inject_Z (Qnum t * F / (Zpos (Qden t) * 1))) in *. clearbody c.
+  assert (HFq : (0 < inject_Z F)%Q). { unfold Qlt, inject_Z. simpl. lia. }
+  assert (Hi : (0 < / inject_Z F)%Q) by (apply Qinv_lt_0_compat; exact HFq).
+  assert (Hfi : (inject_Z F * / inject_Z F == 1)%Q) by (apply Qmult_inv_r; lra).
+  unfold Qdiv. set (fq := inject_Z F) in *. set (i := (/ fq)%Q) in *. clearbody i fq.
+  assert (Ht : (t * fq * i == t)%Q) by (rewrite <- Qmult_assoc, Hfi; ring).
+  assert (Ha : (c * i <= t * fq * i)%Q) by (apply Qmult_le_compat_r; lra).
+  assert (Hb : (t * fq * i < (c + 1) * i)%Q) by (apply Qmult_lt_compat_r; lra).
+  split; lra.
+Qed.
+
+(* ---- ttp:frameRate / ttp:frameRateMultiplier written by the writer and read by the reader: the seven frame rates of the property *)
+Definition written_rate_attrs (fps : Q) : list (qname * text) :=
+  let '(fr, m) := print_frame_rate fps in
+  (A_frameRate, fr) :: match m with Some s => [(A_frameRateMultiplier, s)] | None => [] end.
+Definition rate_roundtrip (fps : Q) : bool :=
+  match extract_frame_rate (written_rate_attrs fps) with Some q => Qeq_bool q fps | None => false end.
+Definition listed_rates : list Q := [24 # 1; 25 # 1; 30 # 1; 50 # 1; 60 # 1; 24000 # 1001; 30000 # 1001]%Q.
+Lemma frame_rate_roundtrip : forallb rate_roundtrip listed_rates = true.
+Proof. vm_compute. reflexivity. Qed.
